@@ -659,6 +659,18 @@ def _loop_step_summary(ix, key):
         return None
     sym = mir.Sym(b, ix)
     ret0 = sym.local(0)
+    # the same loop written as a fold: (0..n).fold(self, |acc, _| STEP(acc))
+    if ret0[0] == "call" and ret0[1].endswith("::fold") and "Iterator" in ret0[1] and len(ret0[2]) == 3:
+        rng, init, clo = ret0[2]
+        rng_ok = rng[0] == "agg" and isinstance(rng[1], str) and rng[1].endswith("ops::Range") and len(rng[3]) == 2 and rng[3][0][:2] == ("const", 0) and rng[3][1] == ("arg", "n")
+        if rng_ok and init == ("arg", "self") and clo[0] == "closure" and clo[1] in ix.bodies and not clo[2]:
+            cb = ix.bodies[clo[1]]
+            if cb.arg_count == 3 and not any(cb.in_loop(blk.idx) for blk in cb.blocks if not blk.cleanup):
+                st = mir.Sym(cb, ix).local(0)
+                acc = cb.local_name(2)
+                if not any(isinstance(x, tuple) and x[0] in ("var", "unknown") for x in walk(st)):
+                    return acc, st
+        return None
     if ret0[0] != "var":
         return None
     acc = ret0[1]  # the accumulator is the variable that is returned, whatever it is called
